@@ -4,6 +4,8 @@ import Pymc.Proofs.PooledCallExamples
 import Pymc.Proofs.HashCallExamples
 import Pymc.Proofs.HashCallManyExamples
 import Pymc.Proofs.HashCallSetExamples
+import Pymc.Proofs.HashPooledCallExamples
+import Pymc.Proofs.HashInnerPlain
 /-!
 # C01 — no reply is ever read by the wrong call
 
@@ -45,7 +47,13 @@ The argument is the invariant *at a call boundary an open socket has nothing unr
    The invariant becomes *every client object registered in `self.clients` with an open socket has nothing unread in its
    pipe* (`C01_hash_sequence_clean`, `C01_hash_own_bytes_only`, and the `…_faults` variants); with `get_many` /
    `gets_many`, `set_many` and `delete_many` — several servers contacted by one public call, or one server several
-   times — in `C01_hash_many_*` (model `Pymc/Model/HashCallMany.lean`).
+   times — in `C01_hash_many_*` (model `Pymc/Model/HashCallMany.lean`);
+12. and for `HashClient(use_pooling=True)` (the single-key operations): model `Pymc/Model/HashPooledCall.lean` — the failover
+   code of section 10 (`Pymc/Model/HashInner.lean`: the same code with the registered object as a parameter) around the pool
+   bracket of section 9: every contact with a server is one `PooledClient` call, i.e. a real `Client.call` on an inner
+   client of the pool of the `PooledClient` registered for that server.  The invariant becomes *every idle inner client,
+   of every pool registered in `self.clients`, with an open socket has nothing unread in its pipe*
+   (`C01_hashpooled_sequence_clean`, `C01_hashpooled_own_bytes_only`, and the `…_faults` variants).
 
 No bound on lengths, number of keys or chunking anywhere.
 -/
@@ -1174,5 +1182,205 @@ theorem C01_hash_many_extends_single (ccfg : Cfg) (fcfg : Failover.Cfg) (route :
   runM_cmds ccfg fcfg route (init servers t0) 0 calls
 
 end hashmany
+
+/-! ## 12. `HashClient(use_pooling=True)`: failover bookkeeping around the pool bracket around every call
+
+Model: `Pymc/Model/HashPooledCall.lean` (= `Pymc/Model/HashInner.lean`, the failover code of section 10 with the object
+registered in `self.clients` as a parameter, instantiated with the `PooledClient` of section 9).  A history is a list of
+single-key calls `(routing key, operation, script, time of the call, time at which the pool releases the inner client)`;
+`runHP ccfg pcfg fcfg route (init pcfg servers t0) 0 calls` runs it on a fresh `HashClient(use_pooling=True)` over
+`servers`: inner clients configured by `ccfg`, every `PooledClient` with `max_pool_size` / `pool_idle_timeout` = `pcfg`
+(and without `ignore_exc`: the one that swallows is the `HashClient`), failover parameters `fcfg`, hasher `route` (any
+function).  `pools st` lists, per server, the number of the `PooledClient` registered for it and its pool.  `stepOf ob`,
+when the failover code invoked a `PooledClient` whose pool handed out an inner client, is the inner `Client.call` (with
+`ignore_exc=False`) on that client: `recv()` results tagged with the number of the `HashClient` call during which they
+arrive, exactly one step of `Framing.runTaggedFrom`.  Which server is contacted and when its `PooledClient` is replaced by
+a fresh one with an empty pool (`add_server` when a dead server is brought back — the old pool is dropped as it is) is
+decided by the failover code (C13); which inner client serves, whether it reconnects, and whether it goes back to the
+pool or is destroyed is decided by the pool (C09). -/
+section hashpooled
+open HashPooledCall
+
+variable {Key : Type}
+
+/-- C01 (`HashClient(use_pooling=True)`, the step is the inner call): the step observed for call `i` is `Client.call` for
+the `i`-th operation of the history on some inner client (socket state `so`, pipe `left`), with that call's `recv()`
+results tagged `i`; the `PooledClient` method returns or raises what it returned or raised (`po.res`; the pooled wrapper
+swallows nothing); and the `HashClient` method's result is that result, or `default_val` / the exception as `ignore_exc`
+and the exception class decide (`HashInner.ResOfInner`). -/
+theorem C01_hashpooled_step_is_client_call (ccfg : Cfg) (pcfg : Pooled.Cfg) (fcfg : Failover.Cfg)
+    (route : List Nat → Key → Option Nat) (servers : List Nat) (t0 : Nat) (calls : List (HPCall Key)) :
+    ∀ (i : Nat) (ob : HPObs pcfg), (runHP ccfg pcfg fcfg route (init pcfg servers t0) 0 calls).2[i]? = some ob →
+      ∃ hc, calls[i]? = some hc ∧
+        ∀ st, stepOf ob = some st →
+          (∃ so left,
+            st.idx = i ∧ st.avail = available so left (hc.sc.evs.map fun e => (i, e)) ∧
+            st.out = Client.call ccfg false so hc.call { hc.sc with evs := st.avail.map (·.2) }) ∧
+          ∃ po : PooledCall.PObs, ob.inner = some po ∧ po.step = some st ∧ po.res = some st.out.res ∧
+            HashInner.ResOfInner (I := pooled pcfg) fcfg ob.res po := by
+  intro i ob hi
+  obtain ⟨hc, hcall, h⟩ := runHP_steps ccfg fcfg route (init pcfg servers t0) 0 calls i ob hi
+  refine ⟨hc, hcall, fun st hst => ?_⟩
+  obtain ⟨⟨so, left, hs⟩, hres⟩ := h st hst
+  rw [Nat.zero_add] at hs
+  subst hs
+  exact ⟨⟨so, left, rfl, rfl, rfl⟩, hres⟩
+
+/-- C01 (`HashClient(use_pooling=True)`, sequences): run any history of single-key calls on a fresh pooling `HashClient`.
+If what arrives during each call is well-framed for that call, then after every call (`calls.take n` = the first `n`
+calls), in the pool of every `PooledClient` registered in `self.clients`, no inner client is checked out and every idle
+inner client with an open socket has no byte unread in its pipe — whatever the failover code did in between (servers
+marked, retried, evicted, keys rerouted, servers brought back with a fresh `PooledClient`, exceptions swallowed under
+`ignore_exc`) and whatever the pools did (reuse, idle expiry, inner clients destroyed by a failing contact). -/
+theorem C01_hashpooled_sequence_clean (ccfg : Cfg) (pcfg : Pooled.Cfg) (fcfg : Failover.Cfg)
+    (route : List Nat → Key → Option Nat) (servers : List Nat) (t0 : Nat) (calls : List (HPCall Key))
+    (hwf : ∀ hc ∈ calls, WellFramed ccfg hc.call hc.sc.evs) (n : Nat) :
+    ∀ p ∈ pools (runHP ccfg pcfg fcfg route (init pcfg servers t0) 0 (calls.take n)).1,
+      p.2.2.used = [] ∧
+      ∀ cl ∈ p.2.2.free, cl.sockOpen = true → joinData (cl.pipe.map (·.2)) = [] ∧ clean (cl.pipe.map (·.2)) := by
+  intro p hp
+  obtain ⟨x, hx, hpx⟩ := mem_pools hp
+  rw [hpx]
+  refine ⟨PooledCall.used_nil_of_proj ?_, fun cl hcl hopen => ?_⟩
+  · exact ((runHP_poolsOK ccfg fcfg route (init pcfg servers t0) 0 (calls.take n) (poolsOK_init servers t0)).1 x hx).2.used_nil
+  · have h := (runHP_clean ccfg fcfg route (init pcfg servers t0) 0 (calls.take n) (pipesClean_init servers t0)
+      (fun hc h => hwf hc (List.mem_of_mem_take h))).1 x hx cl hcl hopen
+    have hd : Drained (cl.pipe.map (·.2)) := by
+      rw [drained_iff_all_eintr]
+      intro e he
+      obtain ⟨te, hte, rfl⟩ := List.mem_map.mp he
+      exact h te hte
+    exact hd
+
+/-- the six-call history `HashPooledCallExamples.demoCalls` (`HashCallExamples.demoCalls` with pooling, `max_pool_size=1`)
+satisfies the hypothesis, and its run shows the cases the theorem covers: server 0 serves the key (`PooledClient` 0, inner
+client 0, connection 0), then fails — the failing contact destroys the inner client, the server is marked, retried
+(inner clients 1 and 2 of the same pool, refused), evicted with a final probe —, the key is rerouted to server 1
+(`PooledClient` 1), and server 0 comes back with a fresh `PooledClient` (number 2) whose pool creates its own inner client
+0 on its own connection 0; in the end both registered pools hold one idle inner client with an open socket and an
+empty pipe (per pool: server, `PooledClient`, idle clients as (id, connection, open, events left), closed connections,
+checked out) -/
+example :
+    (∀ hc ∈ HashPooledCallExamples.demoCalls, WellFramed {} hc.call hc.sc.evs) ∧
+    HashPooledCallExamples.obsSummary (runHP {} HashPooledCallExamples.pool1 HashCallExamples.cfgStrict Failover.prefRoute
+        (init HashPooledCallExamples.pool1 [0, 1] 0) 0 HashPooledCallExamples.demoCalls) =
+      [⟨.value (.bytes [120]), some 0, some 0, some 0, some 0, [0]⟩,
+       ⟨.raised 0 (.inner (.sock 32)), some 0, some 0, some 0, some 0, []⟩,
+       ⟨.raised 0 (.inner (.sock 61)), some 0, some 0, some 1, none, []⟩,
+       ⟨.raised 0 (.inner (.sock 61)), some 0, some 0, some 2, none, []⟩,
+       ⟨.value .dflt, some 1, some 1, some 0, some 0, [4]⟩,
+       ⟨.value (.bytes [120]), some 0, some 2, some 0, some 0, [5]⟩] ∧
+    HashPooledCallExamples.stateSummary (runHP {} HashPooledCallExamples.pool1 HashCallExamples.cfgStrict Failover.prefRoute
+        (init HashPooledCallExamples.pool1 [0, 1] 0) 0 HashPooledCallExamples.demoCalls) =
+      ({ nodes := [1, 0], failed := [], dead := [], lastDeadCheck := 12 },
+       [⟨0, 2, [(0, some 0, true, 0)], [], 0⟩, ⟨1, 1, [(0, some 0, true, 0)], [], 0⟩]) :=
+  ⟨HashPooledCallExamples.demoCalls_wf, HashPooledCallExamples.demo_strict.1, HashPooledCallExamples.demo_strict.2.1⟩
+
+/-- C01 (`HashClient(use_pooling=True)`, own bytes only): under the same hypothesis, everything `HashClient` call number
+`i` can see on the socket of the inner client that serves it — a fortiori everything it consumes — carries tag `i`,
+except possibly interrupted `recv()` attempts (`eintr`), which carry no bytes (see
+`C01_own_bytes_only_eintr_counterexample`).  So no call of a pooling `HashClient` ever reads a byte that answers an
+earlier call, whichever server it is routed to and whichever pooled connection it runs on. -/
+theorem C01_hashpooled_own_bytes_only (ccfg : Cfg) (pcfg : Pooled.Cfg) (fcfg : Failover.Cfg)
+    (route : List Nat → Key → Option Nat) (servers : List Nat) (t0 : Nat) (calls : List (HPCall Key))
+    (hwf : ∀ hc ∈ calls, WellFramed ccfg hc.call hc.sc.evs) :
+    ∀ (i : Nat) (ob : HPObs pcfg), (runHP ccfg pcfg fcfg route (init pcfg servers t0) 0 calls).2[i]? = some ob →
+      ∀ st, stepOf ob = some st →
+        st.idx = i ∧
+        st.consumed ++ st.leftover = st.avail ∧
+        st.leftover.map (·.2) = st.out.unread ∧
+        (∀ te ∈ st.avail, te.1 = i ∨ te.2 = .eintr) ∧
+        (∀ te ∈ st.consumed, te.1 = i ∨ te.2 = .eintr) := by
+  intro i ob hi st hst
+  obtain ⟨hidx, h⟩ := (runHP_clean ccfg fcfg route (init pcfg servers t0) 0 calls (pipesClean_init servers t0) hwf).2 i ob hi st hst
+  rw [Nat.zero_add] at hidx
+  have hown : ∀ te ∈ st.avail, te.1 = i ∨ te.2 = .eintr := fun te hte => hidx ▸ h.own te hte
+  refine ⟨hidx, h.split, h.left, hown, fun te hte => hown te ?_⟩
+  rw [← h.split]; exact List.mem_append_left _ hte
+
+/-- C01 (`HashClient(use_pooling=True)`, no foreign bytes): every `recv()` result that carries data and is consumed by
+`HashClient` call `i` carries tag `i`. -/
+theorem C01_hashpooled_no_foreign_bytes (ccfg : Cfg) (pcfg : Pooled.Cfg) (fcfg : Failover.Cfg)
+    (route : List Nat → Key → Option Nat) (servers : List Nat) (t0 : Nat) (calls : List (HPCall Key))
+    (hwf : ∀ hc ∈ calls, WellFramed ccfg hc.call hc.sc.evs) :
+    ∀ (i : Nat) (ob : HPObs pcfg), (runHP ccfg pcfg fcfg route (init pcfg servers t0) 0 calls).2[i]? = some ob →
+      ∀ st, stepOf ob = some st → ∀ te ∈ st.consumed, ∀ b, te.2 = .data b → te.1 = i := by
+  intro i ob hi st hst te hte b hb
+  rcases (C01_hashpooled_own_bytes_only ccfg pcfg fcfg route servers t0 calls hwf i ob hi st hst).2.2.2.2 te hte with h | h
+  · exact h
+  · rw [hb] at h; cases h
+
+/-- C01 (`HashClient(use_pooling=True)`, sequences, broken connections): if what arrives during each call is `FaultFramed`
+for that call (the owed units, or a strict prefix of them cut at any byte by end-of-stream or an exception), then after
+every call no byte is readable, before a fault, from the pipe of any idle inner client with an open socket of any
+registered pool. -/
+theorem C01_hashpooled_sequence_clean_faults (ccfg : Cfg) (pcfg : Pooled.Cfg) (fcfg : Failover.Cfg)
+    (route : List Nat → Key → Option Nat) (servers : List Nat) (t0 : Nat) (calls : List (HPCall Key))
+    (hff : ∀ hc ∈ calls, FaultFramed ccfg hc.call hc.sc.evs) (n : Nat) :
+    ∀ p ∈ pools (runHP ccfg pcfg fcfg route (init pcfg servers t0) 0 (calls.take n)).1,
+      ∀ cl ∈ p.2.2.free, cl.sockOpen = true → quiet (cl.pipe.map (·.2)) := by
+  intro p hp
+  obtain ⟨x, hx, hpx⟩ := mem_pools hp
+  rw [hpx]
+  exact (runHP_quiet ccfg fcfg route (init pcfg servers t0) 0 (calls.take n) (pipesQuiet_init servers t0)
+    (fun hc h => hff hc (List.mem_of_mem_take h))).1 x hx
+
+/-- C01 (`HashClient(use_pooling=True)`, own bytes only, broken connections): everything `HashClient` call `i` can
+possibly receive — the pipe content of the inner client that serves it, up to the first fault — carries tag `i` or is an
+interrupted attempt without bytes; and a call whose inner client keeps its socket has consumed only such events. -/
+theorem C01_hashpooled_own_bytes_only_faults (ccfg : Cfg) (pcfg : Pooled.Cfg) (fcfg : Failover.Cfg)
+    (route : List Nat → Key → Option Nat) (servers : List Nat) (t0 : Nat) (calls : List (HPCall Key))
+    (hff : ∀ hc ∈ calls, FaultFramed ccfg hc.call hc.sc.evs) :
+    ∀ (i : Nat) (ob : HPObs pcfg), (runHP ccfg pcfg fcfg route (init pcfg servers t0) 0 calls).2[i]? = some ob →
+      ∀ st, stepOf ob = some st →
+        st.idx = i ∧
+        st.consumed ++ st.leftover = st.avail ∧
+        st.leftover.map (·.2) = st.out.unread ∧
+        (∀ te ∈ readable st.avail, te.1 = i ∨ te.2 = .eintr) ∧
+        (st.out.sockOpen = true → ∀ te ∈ st.consumed, te.1 = i ∨ te.2 = .eintr) := by
+  intro i ob hi st hst
+  obtain ⟨hidx, h⟩ := (runHP_quiet ccfg fcfg route (init pcfg servers t0) 0 calls (pipesQuiet_init servers t0) hff).2 i ob hi st hst
+  rw [Nat.zero_add] at hidx
+  have hown : ∀ te ∈ readable st.avail, te.1 = i ∨ te.2 = .eintr := fun te hte => hidx ▸ h.own te hte
+  exact ⟨hidx, h.split, h.left, hown, fun ho te hte => hown te (h.taken ho te hte)⟩
+
+/-- a history over a breaking connection (`HashPooledCallExamples.faultCalls` = `HashCallExamples.faultCalls` with pooling,
+`ignore_exc=True`): every script is `FaultFramed`; call 1 — the last one served by inner client 0 of the first pool —
+also takes the interrupted `recv()` left by call 0 (tags `[0, 1, 1, 1]`) and is cut by a timeout with junk arriving
+later; every failing contact destroys the inner client it used (inner clients 1 … 4 of that pool serve one call each);
+call 7, served by inner client 0 of the fresh `PooledClient` 2 of the revived server 0, never sees the junk of call 1 -/
+example :
+    (∀ hc ∈ HashPooledCallExamples.faultCalls, FaultFramed {} hc.call hc.sc.evs) ∧
+    HashPooledCallExamples.obsSummary (runHP {} HashPooledCallExamples.pool1 HashCallExamples.cfgIgnore Failover.prefRoute
+        (init HashPooledCallExamples.pool1 [0, 1] 0) 0 HashPooledCallExamples.faultCalls) =
+      [⟨.value (.bytes [120]), some 0, some 0, some 0, some 0, [0]⟩,
+       ⟨.default, some 0, some 0, some 0, some 0, [0, 1, 1, 1]⟩,
+       ⟨.raised 0 (.inner (.sock 130)), some 0, some 0, some 1, none, []⟩,
+       ⟨.default, some 0, some 0, some 2, some 1, [3, 3]⟩,
+       ⟨.default, some 0, some 0, some 3, none, []⟩,
+       ⟨.default, some 0, some 0, some 4, none, []⟩,
+       ⟨.illegalKey, none, none, none, none, []⟩,
+       ⟨.value (.bytes [120]), some 0, some 2, some 0, some 0, [7]⟩] ∧
+    HashPooledCallExamples.stateSummary (runHP {} HashPooledCallExamples.pool1 HashCallExamples.cfgIgnore Failover.prefRoute
+        (init HashPooledCallExamples.pool1 [0, 1] 0) 0 HashPooledCallExamples.faultCalls) =
+      ({ nodes := [1, 0], failed := [], dead := [], lastDeadCheck := 20 },
+       [⟨0, 2, [(0, some 0, true, 0)], [], 0⟩, ⟨1, 1, [], [], 0⟩]) :=
+  ⟨HashPooledCallExamples.faultCalls_ff, HashPooledCallExamples.demo_faults.1, HashPooledCallExamples.demo_faults.2⟩
+
+/-- C01 (the generic failover model instantiated with one `Client` per server is the model of section 10): the development
+behind this section is `Pymc/Model/HashInner.lean` — the failover code with "what a contact does" as a parameter —
+instantiated with the pool bracket (`HashPooledCall.pooled`).  Instantiated instead with a single `Client` per server
+(`HashInner.plain`, a contact being one `PooledCall.stepTagged`), it goes through the same states and makes the same
+observations as `HashCall.runH` (translations `HashInner.toG`, `HashInner.toGCall`, `HashInner.obsMap`): sections 10 and 12
+are about the same `HashClient` code, with `use_pooling=False` and `use_pooling=True`. -/
+theorem C01_hash_is_plain_instance (ccfg : Cfg) (fcfg : Failover.Cfg) (route : List Nat → Key → Option Nat)
+    (servers : List Nat) (t0 : Nat) (calls : List (HashCall.HCall Key)) :
+    HashInner.runG ccfg fcfg route (HashInner.init HashInner.plain servers t0) 0 (calls.map HashInner.toGCall) =
+      (HashInner.toG (HashCall.runH ccfg fcfg route (HashCall.init servers t0) 0 calls).1,
+       (HashCall.runH ccfg fcfg route (HashCall.init servers t0) 0 calls).2.map HashInner.obsMap) := by
+  rw [← HashInner.init_plain]
+  exact HashInner.runG_plain ccfg fcfg route (HashCall.init servers t0) 0 calls
+
+end hashpooled
 
 end C01
